@@ -88,7 +88,7 @@ class Swap:
     def __enter__(self):
         self.saved = {}
         for k, v in self.names.items():
-            if k not in self.mod.__dict__ and k not in ('open',):
+            if k not in self.mod.__dict__ and k not in ('open', 'time'):
                 raise RuntimeError(f'seam {self.mod.__name__}.{k} is gone')
             self.saved[k] = self.mod.__dict__.get(k, Swap)
             setattr(self.mod, k, v)
@@ -386,6 +386,9 @@ def conditions(tier):
                    bounds='require/signed/result bits'))
     return cs
 
+
+# validate() compares the real implementation with the property itself
+VALIDATION_CHECKS_PROPERTY = True
 
 ASSUMPTIONS = [
     'gpg emits well-formed status lines from the vocabulary of doc/DETAILS (VALIDSIG with 10 '
